@@ -7,7 +7,7 @@ CONSTANTS
   FullLen = 3
   Core = {}
   Families = {"rich", "rand"}
-  NRand = 40
+  NRand = 24
   RandSize = 10
 INVARIANT TreesOK0
 INVARIANT Emit
